@@ -327,6 +327,11 @@ func replayOne(ti int, tr mbt.Trace, rep *mbt.Report) {
 			continue
 		}
 		// compare every honest node
+		if msg := s.CheckTimeoutDurations(); msg != "" {
+			fail(si, st, "oracle", true, "oracle:timeout-duration", msg, nil, nil)
+			return
+		}
+		rep.Count("timeout_duration_checks")
 		for _, i := range s.HonestIdx() {
 			want := nodeOf(st.Post, i)
 			if want == nil {
